@@ -270,6 +270,19 @@ func runWriterSeq(s *c14State, k, variant int) (out seqResult) {
 	payload := []byte("abc")
 	var sent []byte // bytes offered in order (to check forwarding order)
 
+	// the recorder is recycled with its context: earlier requests that wrote, flushed and took over their
+	// connection must leave nothing behind (three of them, so that whichever pooled context comes next has served one)
+	s.handler = func(c fox.Context) {
+		w := c.Writer()
+		w.WriteHeader(http.StatusAccepted)
+		_, _ = w.Write([]byte("earlier"))
+		_ = w.FlushError()
+		_, _, _ = w.Hijack()
+	}
+	for n := 0; n < 3; n++ {
+		s.r.ServeHTTP(richW{&ghost{sc: &script{}, hdr: http.Header{}}, &capCalls{}}, &http.Request{Method: "GET", URL: &url.URL{Path: "/w"}})
+	}
+
 	s.handler = func(c fox.Context) {
 		w := c.Writer()
 		checkRecorder(w, g, "fresh")
